@@ -12,7 +12,7 @@ CHECK = {
            'with two trees also onto B; (table=1) a round trip Tree := Table := A through a filled Table of other element types; afterwards the target must have the '
            'source\'s key/value types and slot sizes, the same bindings byte for byte, and the ledger must show its old contents finalised exactly once '
            '(rem of an absent key is a self-loop that must raise KeyError and change nothing) on one real Tree over the key universe '
-           '0..N-1 (Int keys, String keys "k00".., Probe keys+values with a constructor/destructor ledger); a state is the concrete '
+           '0..N-1 (Int keys 0..N-1, wide Int keys {0, 1, -1, +-2^31, +-2^32, 2^31-1, 2^32+1, INT64_MAX, INT64_MIN, 2^62} with the reference order computed on int64, String keys "k00".., Probe keys+values with a constructor/destructor ledger); a state is the concrete '
            'tree: exact shape + colours + keys + values (white-box, Tree.c compiled into the harness), so every reachable red-black '
            'tree over every subset of the universe is visited and every state is re-entered by replaying its shortest history on a '
            'fresh tree; after every transition: white-box red-black audit (search order, black root, no red-red, equal black '
@@ -24,10 +24,10 @@ CHECK = {
            '4 x 4 enumerated orders (ascending, descending, alternating ends, stride), cheap root-path height bound + len/mem/get at '
            'every step, full audit and full iteration comparison at every step for N <= 300 and at every 64th step otherwise'),
   'bounds': {
-    'quick': ('mixed key/value sizes (Int->Blob20 9 and 6x2 keys, 8 under ASan; Int->Probe 8; Probe->Int 8, 5x2 under ASan; String->Probe 8; Probe->Blob20 6x2); to fixpoint: Int keys 11-key universe x 1 value (3.99e4 concrete trees) and 7 keys x 2 values (gcc), 9 keys and 5x2 under ASan+UBSan; '
+    'quick': ('wide Int keys 9 and 6x2, 7 under ASan; mixed key/value sizes (Int->Blob20 9 and 6x2 keys, 8 under ASan; Int->Probe 8; Probe->Int 8, 5x2 under ASan; String->Probe 8; Probe->Blob20 6x2); to fixpoint: Int keys 11-key universe x 1 value (3.99e4 concrete trees) and 7 keys x 2 values (gcc), 9 keys and 5x2 under ASan+UBSan; '
               'String keys 10 and 6x2, 8 under ASan, 4x2 with the stored-key alias operation under ASan; Probe keys+values with the ledger 10 and 6x2, 8 and 5x2 under ASan; '
               'ladders N in {1,2,3,7,16,33,100,300,1000,4000,10000} Int, {100,1000,4000} String, {1,2,3,16,100,1000} under ASan, 16 order pairs each'),
-    'thorough': ('mixed key/value sizes (Int->Blob20 12 and 8x2, 11 under ASan; Int->Probe 11; Probe->Int 11, 7x2 under ASan; String->Probe 11, 7x2 under ASan; Probe->Blob20 8x2); to fixpoint: Int keys 14-key universe x 1 value (8.9e5 concrete trees, deepest shortest history 26) and 9 keys x 2 values (4.2e5), 12 keys and 8x2 under ASan+UBSan; '
+    'thorough': ('wide Int keys 12 (all of them) and 8x2, 10 under ASan; mixed key/value sizes (Int->Blob20 12 and 8x2, 11 under ASan; Int->Probe 11; Probe->Int 11, 7x2 under ASan; String->Probe 11, 7x2 under ASan; Probe->Blob20 8x2); to fixpoint: Int keys 14-key universe x 1 value (8.9e5 concrete trees, deepest shortest history 26) and 9 keys x 2 values (4.2e5), 12 keys and 8x2 under ASan+UBSan; '
                  'String keys 13 and 9x2, 11 under ASan, 6x2 with the alias operation under ASan; Probe keys+values 13 and 9x2, 11 and 6x2 under ASan; '
                  'ladders to 10000 keys Int and String (21 / 6 sizes), to 4000 Int and 1000 String under ASan'),
   },
@@ -61,6 +61,10 @@ CHECK = {
       T('probe-int5x2-asan', 'asan', 'keys=probe', 'vals=int', 'nkeys=5', 'nvals=2', 'alias=1', 'cross=1', 'table=1'),
       T('str-probe8', 'base', 'keys=str', 'vals=probe', 'nkeys=8', 'nvals=1', 'cross=1', 'table=1'),
       T('probe-blob6x2', 'base', 'keys=probe', 'vals=blob', 'nkeys=6', 'nvals=2', 'alias=1', 'cross=1', 'table=1'),
+      # wide Int keys (pairs 2^31 and 2^32 apart, INT64 extremes): the descent trusts the sign of cmp over the whole int64 range
+      T('wideint9', 'base', 'keys=wideint', 'nkeys=9', 'nvals=1', 'alias=1', 'cross=1', 'table=1'),
+      T('wideint6x2', 'base', 'keys=wideint', 'nkeys=6', 'nvals=2', 'alias=1'),
+      T('wideint7-asan', 'asan', 'keys=wideint', 'nkeys=7', 'nvals=1', 'alias=1', 'cross=1', 'table=1'),
       # cross-type assignment family: targets constructed/filled with other element types (and a Table round trip)
       T('int-int8-cross', 'base', 'keys=int', 'vals=int', 'nkeys=8', 'nvals=1', 'cross=1', 'table=1'),
       T('int-int5x2-cross-asan', 'asan', 'keys=int', 'vals=int', 'nkeys=5', 'nvals=2', 'cross=1', 'table=1', 'alias=1'),
@@ -96,6 +100,10 @@ CHECK = {
       T('str-probe11', 'base', 'keys=str', 'vals=probe', 'nkeys=11', 'nvals=1', 'cross=1', 'table=1'),
       T('str-probe7x2-asan', 'asan', 'keys=str', 'vals=probe', 'nkeys=7', 'nvals=2', 'cross=1', 'table=1'),
       T('probe-blob8x2', 'base', 'keys=probe', 'vals=blob', 'nkeys=8', 'nvals=2', 'alias=1', 'cross=1', 'table=1'),
+      # wide Int keys
+      T('wideint12', 'base', 'keys=wideint', 'nkeys=12', 'nvals=1', 'alias=1', 'cross=1', 'table=1'),
+      T('wideint8x2', 'base', 'keys=wideint', 'nkeys=8', 'nvals=2', 'alias=1'),
+      T('wideint10-asan', 'asan', 'keys=wideint', 'nkeys=10', 'nvals=1', 'alias=1', 'cross=1', 'table=1'),
       # cross-type assignment family
       T('int-int11-cross', 'base', 'keys=int', 'vals=int', 'nkeys=11', 'nvals=1', 'cross=1', 'table=1'),
       T('int-int7x2-cross-asan', 'asan', 'keys=int', 'vals=int', 'nkeys=7', 'nvals=2', 'cross=1', 'table=1', 'alias=1'),
